@@ -22,7 +22,11 @@
 (* Abstraction: a file is a sequence of lines; an edit script is a         *)
 (* sequence of ops K(eep) D(elete) I(nsert) M(odify).  M occurs only on    *)
 (* tag lines and carries a character-level kind; code lines are rewritten  *)
-(* by D+I.  Every line's text is unique, so git's diff is the script in    *)
+(* by D+I.  N / n keep the text of the file's last line and change only    *)
+(* its terminator (N: the old file ended without a line terminator, n: the *)
+(* new one does); git prints the line as a -/+ pair of identical text with *)
+(* the marker "\ No newline at end of file" after the side that lacks it.  *)
+(* Every line's text is unique, so git's diff is the script in             *)
 (* git-normal form (inside a change group: all "-" then all "+").          *)
 (* Columns are the 0-based character columns of fixed comment layouts.     *)
 (***************************************************************************)
@@ -51,9 +55,14 @@ vars == <<ops, blocks, dl, i, q, prevAdded, lastTgt, changes, pc>>
 
 ----------------------------------------------------------------------------
 (* Line numbers *)
-OldNo(o, k) == Cardinality({j \in 1..k : o[j] \in {"K", "D", "M"}})
-NewNo(o, k) == Cardinality({j \in 1..k : o[j] \in {"K", "I", "M"}})
-MakesNew(x) == x \in {"K", "I", "M"}
+OldNo(o, k) == Cardinality({j \in 1..k : o[j] \in {"K", "D", "M", "N", "n"}})
+NewNo(o, k) == Cardinality({j \in 1..k : o[j] \in {"K", "I", "M", "N", "n"}})
+MakesNew(x) == x \in {"K", "I", "M", "N", "n"}
+Unchanged(x) == x \in {"K", "N", "n"}        \* the line's text is the same in both files
+\* N is the last line of the OLD file (only insertions may follow), n the last line of the NEW file (only deletions)
+TermOK(o) == /\ Cardinality({k \in 1..Len(o) : o[k] \in {"N", "n"}}) <= 1
+             /\ \A k \in 1..Len(o) : (o[k] = "N" => \A j \in (k + 1)..Len(o) : o[j] = "I")
+                                     /\ (o[k] = "n" => \A j \in (k + 1)..Len(o) : o[j] = "D")
 
 (* Comment layouts.  0-based character columns on the tag's line:
      tag   = [tc0, tc1]  columns of '<' and '>' of the start tag
@@ -107,18 +116,23 @@ CmtLines(bs) == UNION {SFirst(bs[n])..SLast(bs[n]) \cup EFirst(bs[n])..ELast(bs[
 (* Build: edit script -> typed diff lines (git-normal form), one "sep" after every change group
    (a context line and a hunk end are the same event for the walk).                           *)
 Sep == [t |-> "sep", src |-> 0, tgt |-> 0, op |-> 0]
+Marker == [t |-> "other", src |-> 0, tgt |-> 0, op |-> 0]      \* "\ No newline at end of file"
 Flush(minus, plus) == IF minus = <<>> /\ plus = <<>> THEN <<>> ELSE minus \o plus \o <<Sep>>
 
 RECURSIVE BuildFrom(_, _, _, _)
 BuildFrom(o, k, minus, plus) ==
   IF k > Len(o) THEN Flush(minus, plus)
   ELSE IF o[k] = "K" THEN Flush(minus, plus) \o BuildFrom(o, k + 1, <<>>, <<>>)
-  ELSE LET m2 == IF o[k] \in {"D", "M"}
+  ELSE LET m1 == IF o[k] \in {"D", "M", "N", "n"}
                  THEN Append(minus, [t |-> "-", src |-> OldNo(o, k), tgt |-> NewNo(o, k - 1) + 1, op |-> k])
                  ELSE minus
-           p2 == IF o[k] \in {"I", "M"}
+           m2 == IF o[k] = "N" THEN Append(m1, Marker) ELSE m1
+           p1 == IF o[k] \in {"I", "M", "N", "n"}
                  THEN Append(plus, [t |-> "+", src |-> 0, tgt |-> NewNo(o, k), op |-> k])
                  ELSE plus
+           \* n: git prints the marker after the "+" line, which is the last line of its hunk; the unidiff parser has
+           \* then already closed the hunk (all announced lines read) and drops the marker: the walk never sees it
+           p2 == p1
        IN BuildFrom(o, k + 1, m2, p2)
 Build(o) == BuildFrom(o, 1, <<>>, <<>>)
 
@@ -144,8 +158,10 @@ NewLen(bs, k) ==
      ELSE CodeLen
 
 \* character ranges of the pair (removed line of op a, added line of op k)
-PairRng(bs, a, k) == IF a = k THEN LET ko == KindOfOp(bs, k) IN
-                                   IF ko.kind = "full" THEN <<0, NewLen(bs, k)>> ELSE Rng(ko.kind, ko.lay)
+\* (a terminator-only pair has identical text: line_diff returns no range at all, written <<0, 0>>, which hits nothing)
+PairRng(bs, a, k) == IF a = k THEN (IF ops[k] \in {"N", "n"} THEN <<0, 0>>
+                                   ELSE LET ko == KindOfOp(bs, k) IN
+                                        IF ko.kind = "full" THEN <<0, NewLen(bs, k)>> ELSE Rng(ko.kind, ko.lay))
                      ELSE <<0, NewLen(bs, k)>>      \* positional pairing of unrelated lines
 
 ----------------------------------------------------------------------------
@@ -189,7 +205,8 @@ GenPlace ==
 
 Init ==
   IF GenLen > 0 THEN GenInit ELSE
-  /\ ops \in UNION {[1..n -> {"K", "D", "I", "M"}] : n \in 2..MaxOps}
+  /\ ops \in UNION {[1..n -> {"K", "D", "I", "M", "N", "n"}] : n \in 2..MaxOps}
+  /\ TermOK(ops)
   /\ LET W == Candidates(ops) IN
      blocks \in {<<b>> : b \in W}
             \cup (IF MaxBlocks >= 2
@@ -336,13 +353,13 @@ Far(b, k)     == k < SFirst(b) - 1 \/ k > ELast(b) + 1
 Alone(o, k) == (k = 1 \/ o[k - 1] = "K") /\ (k = Len(o) \/ o[k + 1] = "K")
 
 MustContent(o, b) ==
-  \/ \E k \in 1..Len(o) : o[k] # "K" /\ Between(b, k)
+  \/ \E k \in 1..Len(o) : ~Unchanged(o[k]) /\ Between(b, k)
   \/ (o[b.ps] = "M" /\ b.ks = "post" /\ Alone(o, b.ps))
   \/ (o[b.pe] = "M" /\ b.ke = "pre" /\ Alone(o, b.pe))
 
 \* an op that, by the statement, neither selects the block nor changes its content
 Harmless(o, b, k) ==
-  \/ o[k] = "K"
+  \/ Unchanged(o[k])
   \/ Far(b, k)
   \/ (k = b.ps /\ o[k] = "M" /\ b.ks \in {"cmtB", "cmtA"})
   \/ (k = b.pe /\ o[k] = "M" /\ b.ke = "endcmt")
@@ -375,7 +392,7 @@ Meets(tri, flag) == (tri = "MUST" => flag) /\ (tri = "MUSTNOT" => ~flag)
 RECURSIVE IdealFrom(_, _, _)
 IdealFrom(o, bs, k) ==
   IF k > Len(o) THEN <<>>
-  ELSE (CASE o[k] = "K" -> <<>>
+  ELSE (CASE Unchanged(o[k]) -> <<>>
           [] o[k] = "I" -> <<Whole(NewNo(o, k))>>
           [] o[k] = "D" -> <<Whole(NewNo(o, k) + 1)>>
           [] o[k] = "M" -> <<Ranged(NewNo(o, k), PairRng(bs, k, k))>>)
